@@ -13,11 +13,29 @@ open Opt OptSem Ir
 
 variable {w : Nat}
 
-/-- `s'` extends `s` by instructions that simulate the source instructions `src`. -/
-def StepOk (ps : List (Rebuild w)) (s s' : Rebuild w) (src : List (Instr w)) : Prop :=
-  ∃ new, s'.insts = s.insts ++ new ∧
-    ∀ M0 σE σS, Rel s ps M0 σE σS →
-      Sim (fun σS' σE' => ∃ M0', Rel s' ps M0' σE' σS') src new σS σE ∧ ¬ Bad new σE
+/-- End-state relation of a step: related through `s'`; while no uncertain move has happened the reference
+memory `M0` and the pointer of the emitted program are the ones from before the step. -/
+def StepQ (sh' : Int) (ps : List (Rebuild w)) (s' : Rebuild w) (M0 : Mem w) (σE : State w)
+    (σS' σE' : State w) : Prop :=
+  ∃ M0', RelAt sh' s' ps M0' σE' σS' ∧ (s'.subShift = false → M0' = M0 ∧ σE'.ptr = σE.ptr)
+
+/-- `s'` extends `s` by instructions that simulate the source instructions `src`; the source program's pointer
+is `sh` (before) / `sh'` (after) cells to the right of the emitted program's pointer. -/
+def StepAt (sh sh' : Int) (ps : List (Rebuild w)) (s s' : Rebuild w) (src : List (Instr w)) : Prop :=
+  ∃ new, s'.insts = s.insts ++ new ∧ (s'.subShift = false → s.subShift = false) ∧
+    ∀ M0 σE σS, RelAt sh s ps M0 σE σS →
+      Sim (StepQ sh' ps s' M0 σE) src new σS σE ∧ ¬ Bad new σE
+
+/-- `StepAt` with the emitted instructions exposed and a guard `G` on the source states considered (facts that
+hold for the source states that really occur at this point). -/
+def StepNG (G : State w → Prop) (sh sh' : Int) (ps : List (Rebuild w)) (s s' : Rebuild w)
+    (src new : List (Instr w)) : Prop :=
+  (s'.subShift = false → s.subShift = false) ∧
+  ∀ M0 σE σS, RelAt sh s ps M0 σE σS → G σS → Sim (StepQ sh' ps s' M0 σE) src new σS σE ∧ ¬ Bad new σE
+
+/-- The same for the program being rebuilt (pointer offsets = `shift`). -/
+abbrev StepOk (ps : List (Rebuild w)) (s s' : Rebuild w) (src : List (Instr w)) : Prop :=
+  StepAt s.shift s'.shift ps s s' src
 
 /-- Instruction lists without `loop` / `ifnz` never reach a `once` loop. -/
 theorem not_bad_of_noBlocks {l : List (Instr w)} (hl : ∀ i ∈ l, C01Dse.isBlock i = false) (σ : State w) :
@@ -85,7 +103,7 @@ theorem output_sim {ps : List (Rebuild w)} {s s1 s' : Rebuild w} {comps : List (
     (hp : s'.pending = s1.pending) (hw : s'.written = s1.written) (hh : SameHdr s1 s')
     (hnr : s'.noReturn = s1.noReturn)
     {M0 : Mem w} {σE σS : State w} (hr : Rel s ps M0 σE σS) :
-    Sim (fun σS' σE' => ∃ M0', Rel s' ps M0' σE' σS') [.output src]
+    Sim (StepQ s'.shift ps s' M0 σE) [.output src]
       (comps.map Instr.calc ++ [.output x]) σS σE := by
   have hr1 := hres.rel hr
   have hbyte : σS.rd src = (comps.foldl doCalc σE).rd x := by
@@ -100,7 +118,8 @@ theorem output_sim {ps : List (Rebuild w)} {s s1 s' : Rebuild w} {comps : List (
   intro _
   obtain ⟨p1, t1⟩ := output_fields σS src
   obtain ⟨p2, t2⟩ := output_fields (comps.foldl doCalc σE) x
-  refine ⟨M0, o2.symm, o3.symm, ?_, by rw [hnr]; exact hr1.nr, ?_⟩
+  refine ⟨M0, ⟨o2.symm, o3.symm, ?_, by rw [hnr]; exact hr1.nr, ?_⟩,
+    fun _ => ⟨rfl, by rw [p2]; exact (foldl_doCalc_meta comps σE).1⟩⟩
   · show (σS.output src).2.ptr = ((comps.foldl doCalc σE).output x).2.ptr + s'.shift
     rw [p1, p2, hh.2.2.1]; exact hr1.ptr
   · show MInv s' ps M0 (memE ((comps.foldl doCalc σE).output x).2)
@@ -123,7 +142,8 @@ theorem step_output {ps : List (Rebuild w)} {s : Rebuild w} (hwf : Wf s) (src : 
     · exact (hsame.wf hwf).withInsts _
     · show (Opt.read s x).insts ++ _ = _
       rw [hsame.2.2.2.2.2.2.2.2.2.1]
-    · intro M0 σE σS hrel
+    · refine ⟨fun h => hsame.2.2.2.2.1.symm.trans h, ?_⟩
+      intro M0 σE σS hrel
       have := output_sim (s' := { Opt.read s x with insts := (Opt.read s x).insts ++ [Instr.output x] })
         (EmitRes.refl ps hwf) src x
         (fun M0 E S hi => retargetOutput_sound hi hx) hsame.2.2.2.2.2.2.2.1 hsame.2.2.2.2.2.2.1 hsame.hdr
@@ -144,7 +164,8 @@ theorem step_output {ps : List (Rebuild w)} {s : Rebuild w} (hwf : Wf s) (src : 
       rw [hsame.2.2.2.2.2.2.2.2.2.2, res.subAnal]
     · show (Opt.read s1 (src + s.shift)).insts ++ _ = _
       rw [hsame.2.2.2.2.2.2.2.2.2.1, res.insts, List.append_assoc]
-    · intro M0 σE σS hrel
+    · refine ⟨fun h => (res.hdr.trans hsame.hdr).2.2.2.2.symm.trans h, ?_⟩
+      intro M0 σE σS hrel
       exact ⟨output_sim (s' := { Opt.read s1 (src + s.shift) with
           insts := (Opt.read s1 (src + s.shift)).insts ++ [Instr.output (src + s.shift)] })
         res src (src + s.shift)
@@ -168,7 +189,8 @@ theorem step_input {ps : List (Rebuild w)} {s : Rebuild w} (hwf : Wf s) (dst : I
   refine ⟨hwf', c5, c4, c6, comps.map Instr.calc ++ [.input (dst + s.shift)], ?_, ?_⟩
   · show s1.insts ++ _ = _
     rw [c2, List.append_assoc]
-  · intro M0 σE σS hrel
+  · refine ⟨fun h => c4.2.2.2.2.symm.trans h, ?_⟩
+    intro M0 σE σS hrel
     -- the state of the emitted program after the groups
     have hX := c10 (fun _ => False) M0 _ _ (hrel.inv.toX _)
     obtain ⟨m1, m2, m3⟩ := foldl_doCalc_meta comps σE
@@ -181,7 +203,8 @@ theorem step_input {ps : List (Rebuild w)} {s : Rebuild w} (hwf : Wf s) (dst : I
     intro hok
     obtain ⟨x, hS, hE, pS, pE⟩ := input_ok_mem (σS := σS) (σE := comps.foldl doCalc σE) dst (dst + s.shift)
       henv hok
-    refine ⟨M0, o2.symm, o3.symm, ?_, by show s1.noReturn = false; rw [c5]; exact hrel.nr, ?_⟩
+    refine ⟨M0, ⟨o2.symm, o3.symm, ?_, by show s1.noReturn = false; rw [c5]; exact hrel.nr, ?_⟩,
+      fun _ => ⟨rfl, by rw [pE]; exact m1⟩⟩
     · show (σS.input dst).2.ptr = ((comps.foldl doCalc σE).input (dst + s.shift)).2.ptr + s1.shift
       rw [pS, pE, m1, c4.2.2.1]; exact hrel.ptr
     · show MInv ({ s1 with insts := s1.insts ++ [Instr.input (dst + s.shift)] } : Rebuild w) ps M0
@@ -227,7 +250,8 @@ theorem step_calc {ps : List (Rebuild w)} {s : Rebuild w} (hwf : Wf s) (calcs : 
   · rw [hsame.2.2.2.2.2.1, res.noRet]
   · rw [hsame.2.2.2.2.2.2.2.2.2, res.subAnal]
   · rw [hsame.2.2.2.2.2.2.2.2.1, res.insts]
-  · intro M0 σE σS hrel
+  · refine ⟨fun h => (res.hdr.trans hsame.hdr).2.2.2.2.symm.trans h, ?_⟩
+    intro M0 σE σS hrel
     obtain ⟨m1, m2, m3⟩ := foldl_doCalc_meta comps σE
     obtain ⟨d1, d2, d3⟩ := C01Dse.doCalc_meta σS calcs
     have hsrc : Atomic [Instr.calc calcs] (fun σ : State w => (true, [calcs].foldl doCalc σ)) :=
@@ -239,7 +263,7 @@ theorem step_calc {ps : List (Rebuild w)} {s : Rebuild w} (hwf : Wf s) (calcs : 
     · show (comps.foldl doCalc σE).env = (doCalc σS calcs).env
       rw [m2, d2]; exact hrel.env.symm
     · intro _
-      refine ⟨M0, ?_, ?_, ?_, by rw [hsame.2.2.2.2.2.1, res.noRet]; exact hrel.nr, ?_⟩
+      refine ⟨M0, ⟨?_, ?_, ?_, by rw [hsame.2.2.2.2.2.1, res.noRet]; exact hrel.nr, ?_⟩, fun _ => ⟨rfl, m1⟩⟩
       · show (doCalc σS calcs).trace = (comps.foldl doCalc σE).trace
         rw [m3, d3]; exact hrel.tr
       · show (doCalc σS calcs).env = (comps.foldl doCalc σE).env
